@@ -28,7 +28,8 @@ RelOps == [LessThan |-> "<", LessEqual |-> "<=", EqualEqual |-> "==", NotEqual |
            GreaterEqual |-> ">=", GreaterThan |-> ">", In |-> "in"]
 AddOps == [Add |-> "+", Minus |-> "-"]
 MulOps == [Multiply |-> "*", Divide |-> "/", Mod |-> "%"]
-PatTypes == {"bool", "int", "uint", "float", "double", "string", "bytes", "type", "timestamp", "duration", "null_type", "dyn"}
+PatTypes == {"bool", "int", "uint", "float", "double", "string", "bytes", "timestamp", "duration", "null_type"}
+PatTypesRejected == {"type", "dyn"}      \* type names that cannot be match patterns
 
 RECURSIVE PExpr(_, _), POr(_, _), POrLoop(_, _, _), PAnd(_, _), PAndLoop(_, _, _), PRel(_, _), PRelLoop(_, _, _),
           PAdd(_, _), PAddLoop(_, _, _), PMul(_, _), PMulLoop(_, _, _), PUnary(_, _), PMember(_, _), PMemberLoop(_, _, _),
@@ -59,6 +60,7 @@ PCases(ts, i, acc, commaSeen) ==
     ELSE LET j == i + 1
              pat == IF TokK(ts, j) = "ident" /\ ts[j].v = "_" THEN Res([pk |-> "any"], j + 1)
                     ELSE IF TokK(ts, j) = "ident" /\ ts[j].v \in PatTypes THEN Res([pk |-> "type", n |-> ts[j].v], j + 1)
+                    ELSE IF TokK(ts, j) = "ident" /\ ts[j].v \in PatTypesRejected THEN Bad
                     ELSE LET hasOp == TokK(ts, j) = "p" /\ ts[j].v \in {"LessThan", "LessEqual", "EqualEqual", "NotEqual", "GreaterEqual", "GreaterThan"}
                              o == POr(ts, IF hasOp THEN j + 1 ELSE j)
                          IN IF IsBad(o) THEN Bad
